@@ -4,7 +4,10 @@
 1. TLC, exhaustive: on every shape of the GraphLife family (chain / diamond trunks, 1-3 heads, deep
    heads, vector parameters, two features; heads with their own parameters or PARAMETER-FREE
    (tasks_params[i] = [], loss computed from the features alone) in the first / last / middle
-   positions - every subset of positions in the thorough tier; every add/mul =
+   positions - every subset of positions in the thorough tier; heads with a PARAMETER-ONLY BRANCH - a
+   regulariser added to the loss, on a parameter of its own or on one the data term uses too, one or
+   two ops deep, reduced by sum or not, possibly the only place where the head's parameters occur: a
+   sub-graph on a path loss -> tasks_params but on no path loss -> features; every add/mul =
    saves-nothing/saves-tensors assignment in the thorough tier) and from every state reachable by
    <= 3 calls, the sweeps torchjd issues for a
    call (chunk sweeps of JacChunks!ImplPlan; per-task sweeps then trunk sweeps for mtl_backward)
@@ -16,7 +19,10 @@
    freed state – observed by differentiating every node on its own with retain_graph=True – must
    be the model's.  twin != model is a machinery failure; torchjd != model is a violation.
    Identical successful calls must add identical updates to .grad.
-3. C->S: random mtl-shaped graphs and random histories of 3 calls are executed the same way, logged
+   The nodes of the parameter-only branches are probed like all others (GraphLife!ParamOnlySaving is
+   exported with each scenario and must be what the harness computes on the real graph's shape).
+3. C->S: random mtl-shaped graphs (heads with / without parameters, with / without parameter-only
+   branches) and random histories of 3 calls are executed the same way, logged
    and validated by TLC with the property-layer operators (TraceGraphLife).
 """
 
@@ -152,8 +158,10 @@ def run_history(item: dict) -> dict:
             elif e_out == "ok" and step["tj"]["freed"] != e_freed:
                 got = step["tj"]["freed"]
                 clause = "retain_graph_true_but_nodes_were_freed" if call["retain"] else \
-                    "graph_not_freed_as_torch_autograd_backward_would" if set(got) <= set(e_freed) else \
-                    "nodes_freed_that_torch_autograd_backward_keeps"
+                    "nodes_freed_that_torch_autograd_backward_keeps" if not set(got) <= set(e_freed) else \
+                    "parameter_only_branch_not_freed_as_torch_autograd_backward_would" \
+                    if call["fn"] == "M" and set(e_freed) - set(got) <= set(param_only_saving(shape)) else \
+                    "graph_not_freed_as_torch_autograd_backward_would"
                 out["fails"].append({"at": pos, "clause": clause,
                                      "what": f"after {call_text(call)} the nodes that can no longer be differentiated are "
                                              f"{got}; after the torch.autograd twin they are {e_freed}"})
@@ -178,8 +186,12 @@ def shape_of(scn: dict) -> dict:
 
 
 def item_of(scn: dict) -> dict:
-    return {"shape": shape_of(scn), "calls": [h["call"] for h in scn["hist"]],
-            "expect": [{"outcome": h["outcome"], "freed": h["freed"]} for h in scn["hist"]]}
+    it = {"shape": shape_of(scn), "calls": [h["call"] for h in scn["hist"]],
+          "expect": [{"outcome": h["outcome"], "freed": h["freed"]} for h in scn["hist"]]}
+    if scn["mtlok"] and sorted(scn["ponly"]) != param_only_saving(it["shape"]):
+        raise MachineryError(f"{describe(it)}: GraphLife!ParamOnlySaving = {sorted(scn['ponly'])} but the harness "
+                             f"computes {param_only_saving(it['shape'])}")
+    return it
 
 
 def hist_key(item: dict, upto: int | None = None) -> str:
@@ -219,6 +231,38 @@ def free_saving_heads(shape: dict) -> list[int]:
         if any(g[n - 1]["k"] == "mul" for n in seen):
             out.append(pos)
     return out
+
+
+def param_only_saving(shape: dict) -> list[int]:
+    """GraphLife!ParamOnlySaving computed on the harness side (compared with the exported one on every
+    scenario): saving nodes of a head that lie on a path loss -> own parameter and on no path
+    loss -> feature."""
+    g, feats = shape["graph"], set(shape["feats"])
+
+    def needed(targets: set[int]) -> set[int]:
+        nd: set[int] = set()
+        for i, node in enumerate(g, start=1):           # children have smaller indices
+            if any(c in targets or c in nd for c in node["c"]):
+                nd.add(i)
+        return nd
+
+    to_feats = needed(feats)
+    out = set()
+    for loss, tp in zip(shape["losses"], shape["taskp"]):
+        head, todo = {loss} - feats, [loss] if loss not in feats else []
+        while todo:
+            for c in g[todo.pop() - 1]["c"]:
+                if c not in head and c not in feats:
+                    head.add(c)
+                    todo.append(c)
+        out |= {n for n in (head & needed(set(tp))) - to_feats if g[n - 1]["k"] == "mul"}
+    return sorted(out)
+
+
+def exercises_param_only(item: dict) -> bool:
+    """mtl_backward(retain_graph=False) is called on a shape that has a parameter-only branch with saved
+    tensors (the probes after that call then observe the freed state of the branch)."""
+    return bool(param_only_saving(item["shape"])) and any(c["fn"] == "M" and not c["retain"] for c in item["calls"])
 
 
 def exercises_free_head(item: dict) -> bool:
@@ -326,7 +370,7 @@ def judge(ctx: Ctx, r: dict) -> None:
 def run(ctx: Ctx, replay: str | None) -> None:
     torch.manual_seed(ctx.seed)
     quick = ctx.tier == "quick"
-    ctx.rule = ("one case = (graph shape: skeleton, which heads are parameter-free, add/mul assignment; history of <= 3 calls among torchjd.backward, "
+    ctx.rule = ("one case = (graph shape: skeleton (with or without parameter-only branches in the heads), which heads are parameter-free, add/mul assignment; history of <= 3 calls among torchjd.backward, "
                 "torchjd.mtl_backward, torch.autograd.backward with roots/targets, chunk size, retain flag); distinct by "
                 "content; non-trivial = the graph has saved tensors and the history has a torchjd call with "
                 "retain_graph=False followed by another call, or a chunked torchjd call")
@@ -342,6 +386,9 @@ def run(ctx: Ctx, replay: str | None) -> None:
         "a parameter-free head (tasks_params[i] = []) is obtained from a head with parameters by replacing every use of "
         "its parameters by a use of the feature it is computed from (GraphLife!StripHeads): it keeps its ops and their "
         "saved tensors; the former parameters remain as unused leaves",
+        "a parameter-only branch of a head (GraphLife!ParamOnly: nodes on a path loss_i -> tasks_params[i] and on no "
+        "path loss_i -> features, e.g. a regulariser added to the loss) belongs to the graph the call differentiates: "
+        "torch.autograd.backward(losses, retain_graph=False) frees it, so mtl_backward(retain_graph=False) must",
         "'an identical second call adds an identical update' is checked as equality of the .grad increments of "
         "identical successful torchjd calls within a history (integers, Sum aggregator)",
     ]
@@ -420,6 +467,13 @@ def run(ctx: Ctx, replay: str | None) -> None:
     if n_free < 50:
         raise MachineryError(f"vacuous coverage of parameter-free heads: only {n_free} replayed histories call "
                              f"mtl_backward on such a shape and continue")
+    n_po = sum(1 for r in results if exercises_param_only(r["item"]))
+    ctx.count("histories_with_mtl_backward_retain_false_on_a_saving_parameter_only_branch", n_po)
+    ctx.count("shapes_with_a_saving_parameter_only_branch_replayed",
+              len({hist_key(r["item"], -1) for r in results if param_only_saving(r["item"]["shape"])}))
+    if n_po < 100:
+        raise MachineryError(f"vacuous coverage of parameter-only branches: only {n_po} replayed histories call "
+                             f"mtl_backward(retain_graph=False) on a shape with such a branch")
     ctx.count("histories_ending_in_a_failing_call", sum(1 for r in results if r["steps"] and r["steps"][-1]["tw"]["outcome"] == "fail"))
     rich = [r for r in results if nontrivial(r["item"]) and any(s["tj"]["freed"] for s in r["steps"])]
     failing = [r for r in rich if r["steps"][-1]["tw"]["outcome"] == "fail"]
@@ -447,6 +501,10 @@ def run(ctx: Ctx, replay: str | None) -> None:
     ctx.count("driver_histories", len(rres))
     ctx.count("driver_histories_with_mtl_backward_on_a_parameter_free_saving_head_then_another_call",
               sum(1 for r in rres if exercises_free_head(r["item"])))
+    n_po_d = sum(1 for r in rres if exercises_param_only(r["item"]))
+    ctx.count("driver_histories_with_mtl_backward_retain_false_on_a_saving_parameter_only_branch", n_po_d)
+    if n_po_d < len(rres) // 20:
+        raise MachineryError(f"vacuous driver coverage of parameter-only branches: {n_po_d} of {len(rres)} histories")
     r = rres[len(rres) // 2]
     ctx.sample({"driver_graph": r["item"]["shape"]["graph"], "history": [call_text(c) for c in r["item"]["calls"]],
                 "observed": [{"torchjd": s["tj"], "twin": s["tw"]} for s in r["steps"]]})
